@@ -2,6 +2,9 @@ package main
 
 import (
 	"fmt"
+	"os"
+	"path/filepath"
+	"regexp"
 	"sort"
 	"strings"
 
@@ -266,6 +269,39 @@ func genWalkSchema(repo string) (string, error) {
 		}
 		b.WriteString("\n")
 	}
-	b.WriteString("].\n")
+	b.WriteString("].\n\n")
+
+	// every (buf.validate.*) annotation of the two proto files behind the SourceFile message: (file, field or
+	// "oneof", the option text with white space collapsed), in file order. validateFile (protovalidate) enforces them
+	// after the walk; the model's rule list is checked against this table.
+	b.WriteString("Definition validate_annotations : list (string * string * string) := [\n")
+	var rows []string
+	for _, pf := range []string{"proto/j5build/j5/sourcedef/v1/file.proto", "proto/j5/j5/schema/v1/schema.proto"} {
+		src, err := os.ReadFile(filepath.Join(repo, pf))
+		if err != nil {
+			return "", err
+		}
+		var clean []string
+		for _, ln := range strings.Split(string(src), "\n") {
+			if i := strings.Index(ln, "//"); i >= 0 {
+				ln = ln[:i]
+			}
+			clean = append(clean, ln)
+		}
+		text := strings.Join(clean, "\n")
+		for _, m := range reFieldOpts.FindAllStringSubmatch(text, -1) {
+			if strings.Contains(m[2], "buf.validate") {
+				rows = append(rows, fmt.Sprintf("  (%s, %s, %s)", q(filepath.Base(pf)), q(m[1]), q(strings.Join(strings.Fields(m[2]), " "))))
+			}
+		}
+		for _, m := range reOneofOpt.FindAllStringSubmatch(text, -1) {
+			rows = append(rows, fmt.Sprintf("  (%s, %s, %s)", q(filepath.Base(pf)), q("oneof"), q(strings.Join(strings.Fields(m[1]), " "))))
+		}
+	}
+	b.WriteString(strings.Join(rows, ";\n"))
+	b.WriteString("\n].\n")
 	return b.String(), nil
 }
+
+var reFieldOpts = regexp.MustCompile(`(?s)\b(\w+)\s*=\s*\d+\s*\[(.*?)\];`)
+var reOneofOpt = regexp.MustCompile(`option\s*(\(buf\.validate\.oneof\)[^;]*);`)
